@@ -5,6 +5,7 @@ import (
 	"go/constant"
 	"go/token"
 	"go/types"
+	"strings"
 )
 
 func init() { register("C13", checkC13) }
@@ -588,5 +589,98 @@ func checkC13(c *Check) {
 			c.Hold("R5", key, call.Pos(), !f, "a failed "+methodName(call)+" (SERVFAIL, bogus signature, time-out) is treated like an empty answer: discovery goes on / reports 'no records' and the delivery proceeds without DANE instead of being deferred: "+rd.F.Describe(path))
 		}
 	}
-	_ = p
+	// R6: the TLSA result is bound to the connection it was looked up for. One daneDelivery serves every MX tried
+	// for a message; the asynchronous lookup must complete the future created by its own PrepareConn call –
+	// identified as a value (a local of that call), not re-read from the shared field when the lookup is done.
+	c.Rule("R6", "PrepareConn: the lookup goroutine completes a future created by this very call (a captured local, not the shared field re-read later), and that future is what CheckConn reads; no other function installs a future", 3)
+	if pc := c.need("R6", remoteRel, "daneDelivery", "PrepareConn"); pc != nil {
+		pi := pc.Info
+		const futPkg = modPath + "/framework/future"
+		var goStmts []*ast.GoStmt
+		ast.Inspect(pc.FI.Decl.Body, func(x ast.Node) bool {
+			if g, ok := x.(*ast.GoStmt); ok {
+				goStmts = append(goStmts, g)
+			}
+			return true
+		})
+		// the field CheckConn waits on
+		var waitField *types.Var
+		if cc := c.In(remoteRel, "daneDelivery", "CheckConn"); cc != nil {
+			for _, call := range callsIn(cc.FI.Decl.Body) {
+				if isCall(cc.Info, call, futPkg+".Future.GetContext", futPkg+".Future.Get") {
+					waitField = fieldOf(cc.Info, callRecv(call))
+				}
+			}
+		}
+		if waitField == nil {
+			c.Fail("R6", "CheckConn:waits-on-field", pc.FI.Decl.Pos(), "undecided: CheckConn does not wait on a future stored in a field of the delivery")
+		}
+		nset := 0
+		for _, g := range goStmts {
+			lit, ok := g.Call.Fun.(*ast.FuncLit)
+			if !ok {
+				continue
+			}
+			for _, call := range callsIn(lit.Body) {
+				if !isCall(pi, call, futPkg+".Future.Set") {
+					continue
+				}
+				nset++
+				key := "PrepareConn:set" + itoa(nset)
+				recv := callRecv(call)
+				v, isVar := objOf(pi, recv).(*types.Var)
+				if _, isIdent := ast.Unparen(recv).(*ast.Ident); !isIdent || !isVar || v.IsField() || !posIn(pc.FI.Decl.Body, v.Pos()) || posIn(lit, v.Pos()) {
+					c.Hold("R6", key, call.Pos(), false, "the lookup goroutine completes `"+exprStr(recv)+"`, read when the lookup is done: if the connection attempt fails first, the next PrepareConn has replaced it and this MX's records decide the next MX's connection (and that MX's own result is dropped)")
+					continue
+				}
+				def, n := localDef(pi, pc.FI.Decl.Body, v)
+				dc, _ := def.(*ast.CallExpr)
+				fresh := n == 1 && dc != nil && isCall(pi, dc, futPkg+".New")
+				c.Hold("R6", key, call.Pos(), fresh, "the future completed by the lookup goroutine is not created (exactly once) by this PrepareConn call")
+				if !fresh || waitField == nil {
+					continue
+				}
+				// every path to the go statement installs exactly that future in the field CheckConn reads
+				gp, okp := pc.F.PtOf(g.Pos())
+				installs := func(pt Pt) bool {
+					return nodeAssigns(pt.Node(), func(lhs, rhs ast.Expr) bool { return fieldOf(pi, lhs) == waitField && objOf(pi, rhs) == v })
+				}
+				if !okp {
+					c.Fail("R6", "PrepareConn:installs"+itoa(nset), g.Pos(), "undecided: go statement not found in the flow graph")
+					continue
+				}
+				okMust, w := pc.MustPass(pc.Entry(), true, func(pt Pt) bool { return pt == gp }, installs)
+				c.Hold("R6", "PrepareConn:installs"+itoa(nset), g.Pos(), okMust, "the lookup is started without installing its future in ."+waitField.Name()+" (CheckConn would wait on another lookup's result): "+w)
+			}
+		}
+		if nset == 0 {
+			c.Fail("R6", "PrepareConn:set", pc.FI.Decl.Pos(), "undecided: no asynchronous lookup completing a future found in PrepareConn")
+		}
+		// who else writes the field
+		if waitField != nil {
+			bad := ""
+			p.AllFuncs(p.ServerPkgs(), func(fi *FuncInfo) {
+				if fi.Pkg.PkgPath != pc.FI.Pkg.PkgPath || fi.Obj == pc.FI.Obj || strings.HasSuffix(p.Fset.Position(fi.Decl.Pos()).Filename, "_test.go") {
+					return
+				}
+				info := fi.Info()
+				ast.Inspect(fi.Decl, func(x ast.Node) bool {
+					switch s := x.(type) {
+					case *ast.AssignStmt:
+						for i, l := range s.Lhs {
+							if fieldOf(info, l) == waitField && !(len(s.Rhs) == len(s.Lhs) && isNilIdent(info, s.Rhs[i])) {
+								bad = fi.Name() + " (line " + itoa(p.Fset.Position(s.Pos()).Line) + ")"
+							}
+						}
+					case *ast.KeyValueExpr:
+						if id, ok := s.Key.(*ast.Ident); ok && info.Uses[id] == waitField && !isNilIdent(info, s.Value) {
+							bad = fi.Name() + " (line " + itoa(p.Fset.Position(s.Pos()).Line) + ")"
+						}
+					}
+					return true
+				})
+			})
+			c.Hold("R6", "tlsaFut:single-writer", pc.FI.Decl.Pos(), bad == "", "a future is installed for the whole delivery by "+bad+": a future is single-assignment, so every connection after the first would be judged by the first MX's TLSA result")
+		}
+	}
 }
